@@ -34,7 +34,7 @@ def generate(streams, tier):
     nops = rw.randint(4, 14 if tier == "quick" else 40)
     for _ in range(nops):
         kind = weighted(rw, [("product", 5), ("sum", 3), ("divide", 4), ("marginalize", 4), ("maximize", 2), ("reduce", 3), ("normalize", 2), ("scalar", 2),
-                             ("copy", 2), ("new", 2), ("factor_product", 2), ("factor_divide", 1), ("factor_sum_product", 2), ("eq", 3), ("bad", 2)])
+                             ("copy", 2), ("new", 2), ("poke", 3), ("factor_product", 2), ("factor_divide", 1), ("factor_sum_product", 2), ("eq", 3), ("bad", 2)])
         op = {"op": kind, "i": rw.randrange(POOL), "j": rw.randrange(POOL), "dst": rw.randrange(POOL), "inplace": rw.random() < 0.4,
               "pick": rw.randrange(10**6), "operator": rw.random() < 0.4}
         if kind == "new":
@@ -202,10 +202,15 @@ def execute(case, ctx):
                     result = (res, rres)
             elif k in ("marginalize", "maximize"):
                 sc = ra.scope
+                empty = rr.random() < 0.2
                 vs = rr.sample(sc, rr.randint(1, len(sc))) if sc else []
-                if not vs:
+                if empty:
+                    # eliminating no variable is the identity (and, out of place, must still hand back an independent factor)
+                    vs = []
+                    ctx.probe("eliminate_nothing")
+                elif not vs:
                     continue
-                if len(vs) == len(sc):
+                if vs and len(vs) == len(sc):
                     ctx.probe("scope_emptied")
                 rres = ra.reduce_axes(vs, "sum" if k == "marginalize" else "max")
                 if op["inplace"]:
@@ -241,8 +246,29 @@ def execute(case, ctx):
                 c = op["c"]
                 fn = op["fn"]
                 rres = Ref(ra.scope, ra.arr * c if "mul" in fn else ra.arr + c)
-                res = {"mul": lambda: a * c, "rmul": lambda: c * a, "add": lambda: a + c, "radd": lambda: c + a}[fn]()
-                result = (res, rres)
+                if op["inplace"] and fn in ("mul", "add"):
+                    # scalar operand, in place: works on the value buffer itself
+                    getattr(a, "product" if fn == "mul" else "sum")(c, inplace=True)
+                    new_ref_i = rres
+                    ctx.probe("scalar_inplace")
+                else:
+                    res = {"mul": lambda: a * c, "rmul": lambda: c * a, "add": lambda: a + c, "radd": lambda: c + a}[fn]()
+                    result = (res, rres)
+            elif k == "poke":
+                # a single cell overwritten through the public setter (string or default state names only: the setter reads other
+                # kinds of names as state numbers); used as a mutation that exposes shared value buffers
+                sc = ra.scope
+                if not sc or any(u["states"][v] is not None and not all(isinstance(x, str) for x in u["states"][v]) for v in sc):
+                    continue
+                cell = {v: rr.randrange(card[v]) for v in sc}
+                val = rr.choice([0.0, 1.0, 7.5, 0.125])
+                a.set_value(val, **{L(v): names.S(v, s) for v, s in cell.items()}) if all(isinstance(L(v), str) and L(v).isidentifier() for v in sc) else None
+                if not all(isinstance(L(v), str) and L(v).isidentifier() for v in sc):
+                    continue
+                new_arr = ra.arr.copy()
+                new_arr[tuple(cell[v] for v in sc)] = val
+                new_ref_i = Ref(sc, new_arr)
+                ctx.probe("poke")
             elif k == "copy":
                 result = (a.copy(), ra.copy())
             elif k == "new":
